@@ -930,6 +930,7 @@ func TestVerifC20(t *testing.T) {
 		m.Done(t)
 		return
 	}
+	c20LongStartAll() // part 4 (c20_longret_verif_test.go): judged at the very end
 	r := vk.NewRand(0xC20)
 	log := newDiscardLogger()
 	n := vk.Scale(2000, 30000)
@@ -979,6 +980,8 @@ func TestVerifC20(t *testing.T) {
 		}
 		m.Set("ready_wait_signal_probe", map[string]any{"wait_result": int(res), "progress_after": c20CodeName(code), "busy_writes": e.busyWrites.Load()})
 	}()
+	c20NewEnv(log)
+	c20LongJudge(m)
 	m.Require("outcome/fail-config", "outcome/fail-prepare", "outcome/fail-clone", "outcome/fail-listen",
 		"outcome/fail-serve/staged", "outcome/fail-serve/nonstaged", "outcome/fail-ready/relisten",
 		"outcome/success/staged", "outcome/success/nonstaged", "outcome/success/nonstaged+rollback", "outcome/success/relisten",
